@@ -7,6 +7,7 @@ import (
 	"fmt"
 	"sort"
 	"strings"
+	"time"
 
 	"github.com/sharedcode/sop"
 	"github.com/sharedcode/sop/btree"
@@ -161,6 +162,12 @@ func Run(ctx context.Context, p Prog, stores map[string]StoreSpec) *Record {
 		}
 	}
 	for _, o := range p.Ops {
+		if o.Kind == "pause" {
+			// a voluntary yield (K ms of virtual sleep, at least 1): lets a scheduler run other threads here at no
+			// deviation cost
+			sop.Sleep(ctx, time.Duration(max(1, o.K))*time.Millisecond)
+			continue
+		}
 		b, err := get(o.Store)
 		if err != nil {
 			rec.OpenErr = err.Error()
